@@ -122,6 +122,10 @@ def cases(tier, seed, args):
             out.append(dict(t='stackeq', fn=['souden', 'wmwf', 'gev', 'pca', 'ban', 'mvdr', 'souden_auto'][i % 7], L=int(rng.integers(1, 4)), **base(i)))
         for i in range(n):
             out.append(dict(t='singular', fn=['souden', 'wmwf'][i % 2], kind=['zero', 'rank', 'both'][i % 3], **base(i)))
+        # every bin degenerate (target PSD zero, or noise PSD zero, in all bins) with the ESTIMATED reference channel
+        for i in range(6 if q else 24):
+            out.append(dict(t='singular_all', which=['target', 'noise', 'both'][i % 3], name=['direct', 'wmwf', 'wmwf+ban', 'rank1_pca+wmwf'][(i // 3) % 4],
+                            **dict(base(i), F=[1, 3, 2][i % 3])))
         # fixed input reproducing the recorded known finding (see known_findings.json)
         out.append(dict(t='singular', fn='souden', kind='rank', D=7, F=3, cond=1.0, seed=577194273))
     return out
@@ -680,6 +684,19 @@ def run_case(case):
                              items=[dict(w1=Z(w[f]), w2=Z(alone[i])) for i, f in enumerate(good)][:8],
                              fp=fp + f';{case["fn"]};neighbours;dtypes={dt}', key=f'singn:{case["seed"]}'))
         return recs
+    if t == 'singular_all':
+        phin = pd(rng, F, D, 1e2)
+        a, sigma, phix = _rank1(rng, F, D)
+        if case['which'] in ('target', 'both'):
+            phix = phix * 0
+        if case['which'] in ('noise', 'both'):
+            phin = phin * 0
+        if case['name'] == 'direct':
+            w, exc = _call(bf.get_wmwf_vector, phix, phin)
+        else:
+            w, exc = _call(bw.get_bf_vector, case['name'], phix, phin)
+        return [dict(kind='finite', items=[] if w is None else [dict(w=Z(w[f])) for f in range(F)], exc=exc,
+                     fp=fp + f';wmwf;all_bins_{case["which"]}_zero;auto_ref;name={case["name"]}', key=f'singall:{case["seed"]}')]
     if t == 'name':
         return [_name(case, rng)]
     raise ValueError(t)
